@@ -5,7 +5,7 @@ use either::Either;
 use libp2p_core::{Multiaddr, multiaddr::Protocol};
 use libp2p_gossipsub as gs;
 use libp2p_identity::PeerId;
-use libp2p_swarm::{SwarmEvent, dial_opts::DialOpts};
+use libp2p_swarm::{ConnectionId, SwarmEvent, dial_opts::DialOpts};
 use vmon::Rng;
 use vnet::{Net, Raw, RawCtl, RawEvent, RawStream, Recorder};
 
@@ -91,19 +91,23 @@ impl<F: gs::TopicSubscriptionFilter + Send + 'static> Rig<F> {
     /// raw node `t` opens its sending stream towards every peer it is connected to and does not yet have one for
     pub fn raw_open_all(&mut self, t: usize) {
         let ctl = self.raw[t].clone().expect("raw");
-        let conns: Vec<PeerId> = ctl.with(|s| s.conns.iter().filter(|(_, v)| !v.is_empty()).map(|(p, _)| *p).collect());
-        for p in conns {
-            if ctl.find(&p, MESHSUB_11, false).is_none() {
+        let conns: Vec<(PeerId, ConnectionId)> = ctl.with(|s| s.conns.iter().filter(|(_, v)| !v.is_empty()).map(|(p, v)| (*p, v[0])).collect());
+        for (p, first) in conns {
+            if self.raw_out(t, &p).is_none() {
                 let tag = self.next_tag;
                 self.next_tag += 1;
-                ctl.open(p, None, MESHSUB_11, tag);
+                ctl.open(p, Some(first), MESHSUB_11, tag);
             }
         }
         self.net.touch(t);
     }
     /// the stream raw node `t` uses to send to `peer`
     pub fn raw_out(&self, t: usize, peer: &PeerId) -> Option<RawStream> {
-        self.raw[t].as_ref().and_then(|c| c.find(peer, MESHSUB_11, false))
+        // a stream on a connection that has been closed meanwhile is dead: use one on a live connection
+        self.raw[t].as_ref().and_then(|c| {
+            let live = c.connections(peer);
+            c.find_all(peer, MESHSUB_11, false).into_iter().find(|s| live.contains(&s.conn))
+        })
     }
     pub fn raw_send(&mut self, t: usize, peer: &PeerId, rpc: &Rpc) -> bool {
         match self.raw_out(t, peer) {
